@@ -4,6 +4,7 @@ import (
 	"math"
 	"os"
 	"regexp"
+	"strconv"
 	"time"
 
 	"github.com/prometheus/prometheus/model/labels"
@@ -378,6 +379,71 @@ func knownClass(d *DataJ, q QueryJ) string {
 			return "vector_vector_right_series_ends_before_left"
 		}
 	}
+	// K16: vector-vector arithmetic / comparison operator: over the queried range the "one" side of the matching (both
+	// sides of a one-to-one matching; the left-hand side only when the right-hand side holds its signature) has two series
+	// with the same matching signature. The server refuses that while it builds its match maps, whatever the values and
+	// the timestamps, and answers with an empty result; upstream looks at each step, and only at pairs a filter keeps.
+	{
+		k16 := false
+		var st *memStore
+		parser.Inspect(expr, func(node parser.Node, _ []parser.Node) error {
+			b, ok := node.(*parser.BinaryExpr)
+			if !ok || k16 || b.Op.IsSetOperator() || b.LHS.Type() != parser.ValueTypeVector || b.RHS.Type() != parser.ValueTypeVector {
+				return nil
+			}
+			if st == nil {
+				st = newMemStore(d)
+			}
+			l := refQuery(st, b.LHS.String(), d.Base+q.Start, d.Base+q.End, q.Step)
+			r := refQuery(st, b.RHS.String(), d.Base+q.Start, d.Base+q.End, q.Step)
+			if l.Err != "" || r.Err != "" {
+				return nil
+			}
+			if duplicateMatchSignature(b.VectorMatching, l, r) {
+				k16 = true
+			}
+			return nil
+		})
+		if k16 {
+			return "vector_matching_duplicate_signature_on_one_side"
+		}
+	}
+	// K17: grouped aggregation (by / without) directly over a vector-vector operator whose operands both contain a range
+	// function: the operands are regrouped by the aggregation's labels before the operator sees them, and the operator
+	// pairs the rows of a group by position. Wrong as soon as, in some group that both operands populate and that holds
+	// two or more series of one operand, the operands' (step, series) rows differ (a sample without a partner).
+	{
+		k17 := false
+		var st *memStore
+		parser.Inspect(expr, func(node parser.Node, _ []parser.Node) error {
+			a, ok := node.(*parser.AggregateExpr)
+			if !ok || k17 || (len(a.Grouping) == 0 && !a.Without) {
+				return nil
+			}
+			b, ok := unparen(a.Expr).(*parser.BinaryExpr)
+			if !ok || b.Op.IsSetOperator() || b.LHS.Type() != parser.ValueTypeVector || b.RHS.Type() != parser.ValueTypeVector {
+				return nil
+			}
+			if !hasRangeCall(b.LHS) || !hasRangeCall(b.RHS) {
+				return nil
+			}
+			if st == nil {
+				st = newMemStore(d)
+			}
+			l := refQuery(st, b.LHS.String(), d.Base+q.Start, d.Base+q.End, q.Step)
+			r := refQuery(st, b.RHS.String(), d.Base+q.Start, d.Base+q.End, q.Step)
+			if l.Err != "" || r.Err != "" {
+				return nil
+			}
+			if unpairedRowsInSharedGroup(a, b.VectorMatching, l, r) {
+				k17 = true
+			}
+			return nil
+		})
+		if k17 {
+			return "grouped_aggregation_over_operator_of_range_functions_with_unpaired_samples"
+		}
+	}
 	// K14: min / max over an expression (not a bare selector) whose value is NaN or +-Inf at some step: the answer is
 	// -+MaxFloat64.  K15: a filtering comparison (no bool) keeps NaN samples.
 	{
@@ -515,4 +581,125 @@ func knownClass(d *DataJ, q QueryJ) string {
 		}
 	}
 	return ""
+}
+
+// matchSignature renders the labels a vector matching compares (on: the listed labels; otherwise all labels but the
+// listed ones and the metric name).
+func matchSignature(vm *parser.VectorMatching, lbls map[string]string) string {
+	m := map[string]string{}
+	if vm != nil && vm.On {
+		for _, n := range vm.MatchingLabels {
+			m[n] = lbls[n]
+		}
+	} else {
+		for k, v := range lbls {
+			m[k] = v
+		}
+		delete(m, "__name__")
+		if vm != nil {
+			for _, n := range vm.MatchingLabels {
+				delete(m, n)
+			}
+		}
+	}
+	return labelKey(m)
+}
+
+// duplicateMatchSignature: l and r are the operands' answers over the whole queried range. True when the side the server
+// indexes first (right; left for group_right) holds two series with one matching signature, or, one-to-one, the
+// left side holds two series with a signature that the right side holds as well.
+func duplicateMatchSignature(vm *parser.VectorMatching, l, r *Result) bool {
+	count := func(res *Result) map[string]int {
+		m := map[string]int{}
+		for _, s := range res.Series {
+			m[matchSignature(vm, s.Labels)]++
+		}
+		return m
+	}
+	dup := func(m map[string]int, partner map[string]int) bool {
+		for k, n := range m {
+			if n > 1 && (partner == nil || partner[k] > 0) {
+				return true
+			}
+		}
+		return false
+	}
+	ls, rs := count(l), count(r)
+	card := parser.CardOneToOne
+	if vm != nil {
+		card = vm.Card
+	}
+	switch card {
+	case parser.CardOneToMany:
+		return dup(ls, nil)
+	case parser.CardManyToOne:
+		return dup(rs, nil)
+	default:
+		return dup(rs, nil) || dup(ls, rs)
+	}
+}
+
+// aggregationGroup renders the output group of the aggregation a series with these labels falls into.
+func aggregationGroup(a *parser.AggregateExpr, lbls map[string]string) string {
+	m := map[string]string{}
+	if a.Without {
+		for k, v := range lbls {
+			m[k] = v
+		}
+		delete(m, "__name__")
+		for _, n := range a.Grouping {
+			delete(m, n)
+		}
+	} else {
+		for _, n := range a.Grouping {
+			m[n] = lbls[n]
+		}
+	}
+	return labelKey(m)
+}
+
+// unpairedRowsInSharedGroup: l and r are the operands' answers over the whole queried range. True when some group of
+// the aggregation holds rows of both operands, two or more series of one of them, and the (step, matching signature)
+// rows of the operands in that group are not the same set.
+func unpairedRowsInSharedGroup(a *parser.AggregateExpr, vm *parser.VectorMatching, l, r *Result) bool {
+	type side struct {
+		rows   map[string]bool
+		series map[string]bool
+	}
+	collect := func(res *Result) map[string]*side {
+		out := map[string]*side{}
+		for _, s := range res.Series {
+			if len(s.Points) == 0 {
+				continue
+			}
+			g := aggregationGroup(a, s.Labels)
+			sd := out[g]
+			if sd == nil {
+				sd = &side{rows: map[string]bool{}, series: map[string]bool{}}
+				out[g] = sd
+			}
+			sig := matchSignature(vm, s.Labels)
+			sd.series[sig] = true
+			for _, p := range s.Points {
+				sd.rows[strconv.FormatInt(p.T, 10)+"|"+sig] = true
+			}
+		}
+		return out
+	}
+	lg, rg := collect(l), collect(r)
+	for g, ls := range lg {
+		rs := rg[g]
+		if rs == nil || (len(ls.series) < 2 && len(rs.series) < 2) {
+			continue
+		}
+		if len(ls.rows) != len(rs.rows) {
+			return true
+		}
+		for k := range ls.rows {
+			if !rs.rows[k] {
+				return true
+			}
+		}
+	}
+	return false
 }
